@@ -89,7 +89,7 @@ def main():
     b = {'driver_ok': True, 'proofs_ok': True, 'regen': {}, 'log': ''}
     if not a.no_build:
         try:
-            b = common.build_all(prop)
+            b = common.build_all(getattr(mod, 'PROOF_MODULES', [prop]))
         except Exception as e:
             print('infrastructure failure during build: %r' % (e,))
             return 2
@@ -103,7 +103,7 @@ def main():
     discharged = 0
     audit_notes = []
     if b['proofs_ok'] and theorems:
-        ax, raw = common.audit(prop, theorems)
+        ax, raw = common.audit(getattr(mod, 'PROOF_MODULES', [prop]), theorems)
         for t in theorems:
             if ax.get(t) is None:
                 broken.append('theorem %s is missing' % t)
